@@ -180,6 +180,12 @@ func tableSource(kind string, n int) (scriggo.Files, string, bool) {
 			fmt.Fprintf(&b, "text %d {{ %d }}\n", i, i)
 		}
 		return scriggo.Files{"index.html": []byte(b.String())}, "index.html", false
+	case "tmpl-strings":
+		b.WriteString("{% var t = \"\" %}")
+		for i := 0; i < n; i++ {
+			fmt.Fprintf(&b, "{%% t = \"k%d\" %%}{{ t }}", i)
+		}
+		return scriggo.Files{"index.html": []byte(b.String())}, "index.html", false
 	case "macros":
 		for i := 0; i < n; i++ {
 			fmt.Fprintf(&b, "{%% macro M%d %%}m%d{%% end %%}", i, i)
@@ -200,11 +206,12 @@ func tableSource(kind string, n int) (scriggo.Files, string, bool) {
 			fmt.Fprintf(&b, "func f%d() int { return %d }\n", i, i)
 		}
 	}
-	b.WriteString("func main() {\n\ts := 0\n\tvar e interface{}\n\t_ = e\n")
+	b.WriteString("func main() {\n\ts := 0\n\tt := \"\"\n\t_ = t\n\tvar e interface{}\n\t_ = e\n")
 	for i := 0; i < n; i++ {
 		switch kind {
 		case "strings":
-			fmt.Fprintf(&b, "\ts += len(\"str-%d\")\n", i)
+			// a non-constant use: len("lit") would be folded and never reach the table
+			fmt.Fprintf(&b, "\tt = \"str-%d\"\n\ts += len(t)\n", i)
 		case "ints":
 			fmt.Fprintf(&b, "\ts += %d\n", 1000+i*7)
 		case "floats":
@@ -302,7 +309,7 @@ func spaces(tier string) []kit.Space {
 	// distinct string / int / float / general constants, types, functions,
 	// text chunks, for n around the sign and size boundaries of the operand
 	// encodings (operands are int8/uint8 in the instructions).
-	kinds := []string{"strings", "ints", "floats", "generals", "types", "functions", "texts", "macros"}
+	kinds := []string{"strings", "ints", "floats", "generals", "types", "functions", "texts", "macros", "tmpl-strings"}
 	counts := []int{1, 2, 126, 127, 128, 129, 130, 200, 254, 255, 256, 257}
 	sps = append(sps, kit.Space{
 		Name: "disassemble.table-sizes",
